@@ -98,6 +98,14 @@ def apply_aliases(prog):
     for p, q in renamed.items():
         back.setdefault(q, []).append(p)
     prog.renamed = dict(renamed)
+    # gone for good: merged into the single pinned caller (if that still exists)
+    prog.absorbed_into = {}
+    for p in sorted(known_fns):
+        if p in defined or p in resolved or p in renamed:
+            continue
+        cs = known.get("callers", {}).get(p, [])
+        if len(cs) == 1 and (cs[0] in defined or cs[0] in resolved or cs[0] in renamed):
+            prog.absorbed_into[p] = cs[0]
     prog.aliases = {t: sorted(ps) for t, ps in back.items()}
     if not back:
         return
@@ -340,3 +348,92 @@ def _walk_nodes(n):
             stack.extend(v for v in x.values() if isinstance(v, (dict, list)))
         elif isinstance(x, list):
             stack.extend(x)
+
+
+# ------------------------------------------------------------------ argument normal form
+
+def apply_arg_fields(prog):
+    """A pinned method `fn f(&self, a, b)` that became an associated function taking the fields it needs
+    (`fn f(a, b, ksize, bins)` called as `Self::f(a, b, self.ksize, self.bins)`) is presented as the method again:
+    a parameter for which EVERY call site (all inside impls of the same type) passes the same `self.<field>` is that
+    field; the call sites become method calls on `self`.  Only parameter passing changes, no computation."""
+    from .facts import norm_path
+    from .inline import _replace_locals
+    known = load_known_items()
+    pinned_params = known.get("fn_params", {})
+    done = []
+    for path, fs in list(prog.by_path.items()):
+        pp = pinned_params.get(path)
+        if not pp or pp[0] != "self":
+            continue
+        for f in fs:
+            params = f.get("params", [])
+            if f.get("dk") != "AssocFn" or any(p.get("k") == "pbind" and p.get("name") == "self" for p in params) \
+                    or f.get("_argnorm"):
+                continue
+            S = path.rpartition("::")[0]
+            sites = []
+            for (unit, cp), g in prog.fns.items():
+                if unit != f["unit"]:
+                    continue
+                for n in _walk_nodes(g["body"]):
+                    if n.get("k") == "call" and norm_path(n.get("callee") or "") == path:
+                        sites.append((g, n))
+            if not sites or any(not g["npath"].startswith(S + "::") or len(n.get("args", [])) != len(params) for g, n in sites):
+                continue
+            mapping = {}
+            for i, p in enumerate(params):
+                if p.get("k") != "pbind" or "Mut)" in p.get("mode", ""):
+                    continue
+                names = set()
+                for g, n in sites:
+                    a = n["args"][i]
+                    core = a
+                    while isinstance(core, dict) and core.get("k") == "addr":
+                        core = core["e"]
+                    if isinstance(core, dict) and core.get("k") == "field" and core["e"].get("k") == "local" \
+                            and core["e"].get("name") == "self":
+                        names.add(core["name"])
+                    else:
+                        names.add(None)
+                if len(names) == 1 and None not in names:
+                    mapping[i] = (names.pop(), sites[0][1]["args"][i])
+            if not mapping:
+                continue
+            sid = 800000000 + len(done)
+            self_ty = None
+            env = {}
+            for i, (fname, sample) in mapping.items():
+                core = sample
+                depth = 0
+                while core.get("k") == "addr":
+                    core = core["e"]
+                    depth += 1
+                self_ty = self_ty or core["e"].get("ty")
+                node = {"k": "field", "name": fname, "adt": core.get("adt"), "ty": core.get("ty"), "sp": f.get("sp"),
+                        "e": {"k": "local", "name": "self", "id": sid, "ty": core["e"].get("ty"), "sp": f.get("sp")}}
+                for _ in range(depth):
+                    node = {"k": "addr", "ty": "&" + (node.get("ty") or ""), "sp": f.get("sp"), "e": node}
+                env[params[i]["id"]] = node
+            f["body"] = _replace_locals(f["body"], env)
+            keep = [i for i in range(len(params)) if i not in mapping]
+            order = keep
+            want = pp[1:]
+            names_now = [params[i].get("name") for i in keep]
+            if sorted(want) == sorted(n_ for n_ in names_now if n_):
+                order = [keep[names_now.index(w)] for w in want]
+            f["params"] = [{"k": "pbind", "name": "self", "id": sid, "mode": "BindingMode(No, Not)", "ty": self_ty or "&" + S,
+                            "sp": f.get("sp")}] + [params[i] for i in order]
+            if isinstance(f.get("param_tys"), list) and len(f["param_tys"]) == len(params):
+                f["param_tys"] = [self_ty or "&" + S] + [f["param_tys"][i] for i in order]
+            f["_argnorm"] = True
+            for g, n in sites:
+                a0 = n["args"][next(iter(mapping))]
+                while a0.get("k") == "addr":
+                    a0 = a0["e"]
+                recv = a0["e"]
+                args = [n["args"][i] for i in order]
+                n.update({"k": "mcall", "name": path.rpartition("::")[2], "recv": recv, "args": args, "arg_fields": True})
+                n.pop("f", None)
+            done.append((path, sorted(v[0] for v in mapping.values())))
+    prog.arg_fields = done
